@@ -136,9 +136,11 @@ def check_constants(ctx, c, key):
                     annual_tons=c["BASELINE_CROP_KCALS"], first_months_production=prod[:14]), limit=3)
     if len(prod) != n or not np.all(np.isfinite(prod)) or np.any(prod < 0):
         ctx.fail("series-not-finite-nonnegative-one-per-month", "production series malformed", dict(constants=c))
-    ok = close(prod, exp)
+    # (1 - greenhouse share) cancels when the share reaches 1: the tolerance is relative to the amount grown, not to the difference
+    ok = close(prod, exp, scale=np.maximum(np.abs(grown), np.maximum(np.abs(exp), np.abs(prod))))
     with np.errstate(divide="ignore", invalid="ignore"):
-        rel = np.where(np.maximum(np.abs(exp), np.abs(prod)) > 0, np.abs(prod - exp) / np.maximum(np.abs(exp), np.abs(prod)), 0)
+        den = np.maximum(np.abs(grown), np.maximum(np.abs(exp), np.abs(prod)))
+        rel = np.where(den > 0, np.abs(prod - exp) / np.where(den > 0, den, 1), 0)
     if np.all(ok):
         ctx.residual("production_rel", rel.max() if len(rel) else 0)
     if not np.all(ok):
@@ -236,7 +238,7 @@ def check_e2e(ctx, iso3, options):
         ctx.event("sub_billion_month")
     ctx.sample(dict(iso3=iso3, scenario=options["scenario"], crop_disruption=options["crop_disruption"],
                     first_months_production=prod[:14]), limit=5)
-    ok = close(prod, exp)
+    ok = close(prod, exp, scale=np.maximum(np.abs(grown), np.maximum(np.abs(exp), np.abs(prod))))
     if not np.all(ok):
         m = int(np.argmin(ok))
         ctx.fail(classify(c, prod, exp, grown, frac),
